@@ -49,8 +49,11 @@ func ruleSentinel(c *core.Ctx, rule string) {
 			}
 			ret := tm.Ret[0]
 			outs := x.OrdOutcomes(tm.State, "len(§rec)", "c:0")
+			if len(outs) == 1 && outs[0] == "=" && ret.Key() != "§rec" && !isEmptySlice(x, ret) {
+				bad = append(bad, fmt.Sprintf("returns %s at %s on the path where the recursive result is the empty 'forks below' sentinel: the caller takes the non-empty answer for a joined chain, prints one row and skips the subtree that forks", ret.Key(), c.P.Pos(tm.Pos)))
+			}
 			if !absint.Mentions(ret, "rec") {
-				if isEmptySlice(ret) {
+				if isEmptySlice(x, ret) {
 					emptyRet++
 				}
 				continue
@@ -88,12 +91,17 @@ func ruleSentinel(c *core.Ctx, rule string) {
 	}
 }
 
-func isEmptySlice(v absint.Value) bool {
+func isEmptySlice(x *absint.Exec, v absint.Value) bool {
 	if cst, ok := v.(absint.Const); ok {
 		return cst.Nil || cst.V == nil
 	}
-	if t, ok := v.(*absint.Term); ok && t.Op == "slice" {
-		// slice(&fresh array of length 0)
+	if t, ok := v.(*absint.Term); ok && t.Op == "slice" && len(t.Args) > 0 {
+		// slice(&fresh array): empty when the literal has no elements
+		if p, ok := t.Args[0].(absint.Ptr); ok {
+			if n, known := x.ArrayLen(p.Loc); known {
+				return n == 0
+			}
+		}
 		return true
 	}
 	return false
